@@ -196,12 +196,12 @@ def fdata_prim(model, mesh, prim):
 FLUXES = {
     "convection": [None],
     "burgers": [None],
-    "shallowwater": ["centered", "rusanov", "hll"],
-    "euler1d": ["centered", "centeredmassflow", "hlle", "hllc"],
-    "nozzle": ["centered", "centeredmassflow", "hlle", "hllc"],
+    "shallowwater": ["centered", "rusanov", "hll", None],          # None = the model's default flux (rusanov / hllc)
+    "euler1d": ["centered", "centeredmassflow", "hlle", "hllc", None],
+    "nozzle": ["centered", "centeredmassflow", "hlle", "hllc", None],
 }
-UPWIND_FLUXES = {"convection": [None], "burgers": [None], "shallowwater": ["rusanov", "hll"],
-                 "euler1d": ["hlle", "hllc"], "nozzle": ["hlle", "hllc"]}
+UPWIND_FLUXES = {"convection": [None], "burgers": [None], "shallowwater": ["rusanov", "hll", None],
+                 "euler1d": ["hlle", "hllc", None], "nozzle": ["hlle", "hllc", None]}
 MODELS1D = list(FLUXES)
 
 
